@@ -37,6 +37,9 @@ func c11(c *Ctx) {
 	// (round-7 seed C12-M: a cleanup result overwrote finalize's error)
 	c15R1(c, "R7/C15.R1")
 	c15R2(c, "R7/C15.R2")
+	// a user Restore's snapshot sits above the whole log (aborted in-flight
+	// entries included), under the current term (round-7 seed C11-N)
+	c20CreateStamp(c, "R8/C20.R4")
 }
 
 func sinkTracks(c *Ctx, createPrefix string) []engine.Track {
